@@ -465,7 +465,16 @@ func (rw *rewriter) stmt(s ast.Stmt) []ast.Stmt {
 		// inc/dec, branch ...
 		rw.exprsIn(s)
 		if op := chanOp(s); op != "" {
-			return []ast.Stmt{rw.pointStmt(s, op), s}
+			out := []ast.Stmt{rw.pointStmt(s, op), s}
+			_, isRet := s.(*ast.ReturnStmt)
+			if (op == "recv" || op == "send") && !isRet {
+				out = append(out, &ast.ExprStmt{X: rw.vrtCall("Woke", rw.site(s, op))})
+			}
+			return out
+		}
+		if sleeps(s) {
+			rw.stats["sleep"]++
+			return []ast.Stmt{s, &ast.ExprStmt{X: rw.vrtCall("Woke", rw.site(s, "sleep"))}}
 		}
 		return []ast.Stmt{s}
 	}
@@ -605,6 +614,10 @@ func (rw *rewriter) selectStmt(sel *ast.SelectStmt, label *ast.Ident) []ast.Stmt
 			return wrap(sel)
 		}
 		p := rw.pointStmt(sel, "select1")
+		if defCl == nil {
+			cc := comms[0].clause
+			cc.Body = append([]ast.Stmt{&ast.ExprStmt{X: rw.vrtCall("Woke", rw.site(sel, "select1"))}}, cc.Body...)
+		}
 		if label != nil {
 			return []ast.Stmt{p, &ast.LabeledStmt{Label: label, Stmt: sel}}
 		}
@@ -721,9 +734,13 @@ func (rw *rewriter) selectStmt(sel *ast.SelectStmt, label *ast.Ident) []ast.Stmt
 	if defCl != nil {
 		fin = append(fin, &ast.CommClause{Body: []ast.Stmt{assign(k, intLit(len(comms)))}})
 	}
-	pre = append(pre, &ast.IfStmt{Cond: kNeg(), Body: &ast.BlockStmt{List: []ast.Stmt{
-		&ast.SelectStmt{Body: &ast.BlockStmt{List: fin}},
-	}}})
+	blocking := []ast.Stmt{&ast.SelectStmt{Body: &ast.BlockStmt{List: fin}}}
+	if defCl == nil {
+		// The select really blocks here: when it is woken, hand control
+		// back to the scheduler first.
+		blocking = append(blocking, &ast.ExprStmt{X: rw.vrtCall("Woke", site)})
+	}
+	pre = append(pre, &ast.IfStmt{Cond: kNeg(), Body: &ast.BlockStmt{List: blocking}})
 
 	pre = append(pre, &ast.ExprStmt{X: rw.vrtCall("Took", site, p, k, bp)})
 
@@ -763,6 +780,25 @@ func (rw *rewriter) selectStmt(sel *ast.SelectStmt, label *ast.Ident) []ast.Stmt
 	pre = append(pre, sw)
 
 	return []ast.Stmt{&ast.BlockStmt{List: pre}}
+}
+
+// sleeps reports whether the statement directly calls time.Sleep.
+func sleeps(n ast.Node) bool {
+	found := false
+	ast.Inspect(n, func(m ast.Node) bool {
+		switch x := m.(type) {
+		case *ast.FuncLit, *ast.BlockStmt:
+			return false
+		case *ast.CallExpr:
+			if f, ok := x.Fun.(*ast.SelectorExpr); ok && f.Sel.Name == "Sleep" {
+				if id, ok := f.X.(*ast.Ident); ok && id.Name == "time" {
+					found = true
+				}
+			}
+		}
+		return !found
+	})
+	return found
 }
 
 func hasCall(e ast.Expr) bool {
